@@ -146,7 +146,16 @@ func cmdCheck(prop, tier string) int {
 	env := &check.Env{Bins: &world.Bins{Bin: bres.Bin, RaceBin: bres.RaceBin, Sources: bres.Sources}, Base: scratch, Known: kf.classifyAny}
 	fmt.Printf("simdrive: property %s tier %s seed %d: built world binaries from %s in %.1fs (%d import rewrites)\n", prop, tier, seed, repoDir, time.Since(start).Seconds(), bres.Rewrites)
 
+	agg := newAgg(prop, tier, seed)
+	if tier == "thorough" && (prop == "C06" || prop == "C20") {
+		// determinism of the simulator is re-established before a long run (DESIGN.md 5.8)
+		if rc := selftest(120); rc != 0 {
+			return fatal2("determinism self-test failed")
+		}
+		agg.selftest = "120 worlds x 4 executions at GOMAXPROCS 1/4/16/4: identical traces"
+	}
 	bud := budgetOf(prop, tier)
+	_ = agg
 	if v := envInt("VERIF_WORLDS", 0); v > 0 {
 		bud.worlds = v
 	}
@@ -187,7 +196,6 @@ func cmdCheck(prop, tier string) int {
 	}()
 	go func() { wg.Wait(); close(results) }()
 
-	agg := newAgg(prop, tier, seed)
 	var mine []result  // violations of this property
 	var cross []result // violations of other properties only
 	var infra []string
